@@ -14,7 +14,7 @@
    by one object id when the call ran first); contents and order are otherwise unchanged. *)
 From Coq Require Import List String Ascii ZArith Bool Arith Lia.
 From Verif Require Import Base Ops Interp RefVM Unparse Severity SeverityProofs AnalysisTable
-  Analysis AnalysisProofs FloorProofs SimRel SimProofs Inject InjectProofs InjectSevProofs.
+  Analysis AnalysisProofs FloorProofs SimRel SimProofs Shape ShapeProofs Inject InjectProofs InjectSevProofs InjectFkFrame.
 Import ListNotations.
 Local Open Scope nat_scope.
 
@@ -240,29 +240,38 @@ Proof.
   eapply body_floor_nonstd; eauto. eapply events_imports_covered; eauto.
 Qed.
 
-(* what fickling's OWN interpreter records for the injected call, for every mode whose set-up and
-   REDUCE are adjacent (all modes except insert_python run_first=False; for the call-on-object helper
-   its eval of the function name): `_var<i> = n(...)` with the callee printed by NAME -- whatever the
-   base pickle did before (aliases, memo, its own globals named eval ...).  No reference-VM hypothesis. *)
-Theorem C08_injected_call_decompiled : forall md m n p p' first_var s,
-  contiguous_callee md = Some (m, n) -> plain2 m n = true ->
-  single_final_stop p = true -> inject md p = Ok p' ->
-  run_from p' (fk_init first_var) = Ok s ->
-  exists i es, In (SAssignV i (ECall (EName n) es None)) (body s).
-Proof. exact injected_call_decompiled. Qed.
+(* FRAME lemma for fickling's SYMBOLIC interpreter (all 40 abstract opcodes, any program length),
+   driven by the reference VM: while the VM accepts q from a state of the same shape, the symbolic run
+   above extra bottom-of-stack items [bot] is the run without them, and leaves them untouched *)
+Theorem C08_frame_symbolic : forall bot q s v v' t,
+  shape_fk s = shape_vm v -> vrun_from q v = Ok v' -> run_from q (app_bot bot s) = Ok t ->
+  exists s', run_from q s = Ok s' /\ t = app_bot bot s' /\ shape_fk s' = shape_vm v'.
+Proof. exact run_unlift. Qed.
 
-(* hence: builtins eval / exec injected by insert_python run-first (what `fickling --inject` and the
-   PyTorch injector do by default), append_python, and EVERY insert_function_call_on_unpickled_object
-   injection are rated OVERTLY_MALICIOUS outright -- no alias / shadowing side condition is needed,
-   because BadCalls goes by the printed callee name *)
-Theorem C08_never_likely_safe_builtin : forall md m n p p' first_var s protos fs,
-  contiguous_callee md = Some (m, n) -> plain2 m n = true -> In n ["eval"; "exec"]%string ->
-  single_final_stop p = true -> inject md p = Ok p' ->
+(* what fickling's OWN interpreter records for the injected call, for EVERY call-injecting mode and
+   flag combination (for the call-on-object helper: its eval of the function name): the decompiled
+   program contains `_var<i> = n(...)` with the callee printed by its NAME -- whatever the base pickle
+   does (aliases of eval, memo tricks, its own globals named eval ...).  For run_first=False, where the
+   REDUCE is separated from its GLOBAL by the whole base pickle, this uses C08_frame_symbolic *)
+Theorem C08_injected_call_decompiled : forall md m n p r sq p' first_var s,
+  injected_callee md = Some (m, n) -> plain2 m n = true ->
+  single_final_stop p = true -> base_run p = Some (r, sq) ->
+  inject md p = Ok p' -> run_from p' (fk_init first_var) = Ok s ->
+  exists i es, In (SAssignV i (ECall (EName n) es None)) (body s).
+Proof. exact injected_call_decompiled_all. Qed.
+
+(* hence builtins eval / exec injected by ANY mode (what `fickling --inject` with or without
+   --run-last / --replace-result, the PyTorch injector and insert_function_call_on_unpickled_object do)
+   is rated OVERTLY_MALICIOUS outright: no alias / shadowing side condition, because BadCalls goes by
+   the printed callee name and the injected callee is always printed by name *)
+Theorem C08_never_likely_safe_builtin : forall md m n p r sq p' first_var s protos fs,
+  injected_callee md = Some (m, n) -> plain2 m n = true -> In n ["eval"; "exec"]%string ->
+  single_final_stop p = true -> base_run p = Some (r, sq) -> inject md p = Ok p' ->
   run_from p' (fk_init first_var) = Ok s -> analyze crepr std protos s = Some fs ->
   doc_rank (verdict fs) = 5.
 Proof.
-  intros md m n p p' fv s protos fs HC P Hf HS HI Hs HA.
-  destruct (injected_call_decompiled md m n p p' fv s HC P HS HI Hs) as (i & es & Hin).
+  intros md m n p r sq p' fv s protos fs HC P Hf HS HB HI Hs HA.
+  destruct (injected_call_decompiled_all md m n p r sq p' fv s HC P HS HB HI Hs) as (i & es & Hin).
   eapply body_floor_bad_call; eauto.
   assert (forallb (fun x => mem_str x bad_calls) ["eval"; "exec"]%string = true) as T
     by (vm_compute; reflexivity).
@@ -270,33 +279,23 @@ Proof.
   induction bad_calls as [|y r IH]; cbn in T; [discriminate|].
   destruct (String.eqb_spec n y) as [->|_]; [left; reflexivity | right; auto].
 Qed.
-
-(* insert_python run_first=False: the REDUCE is separated from its GLOBAL by the whole base pickle.
-   PARTIAL: OVERTLY_MALICIOUS unless the decompiled program contains a call through a variable fickling
-   introduced (C04's alias escape D18, which a base pickle can contain on its own).  The disjunct is not
-   spurious for the theorem's method (the VM<->decompiler relation cannot tell `eval` from a variable
-   bound to it) but no witness exists on the code: excluding it needs a frame lemma for fickling's
-   SYMBOLIC interpreter (its bottom stack entries survive the base), which is not built; the harness
-   requires OVERTLY_MALICIOUS on every eval / exec injection instead *)
-Theorem C08_never_likely_safe_builtin_run_last_partial : forall p' v first_var s protos fs b f args kw k,
-  vrun_from p' vm_init = Ok v -> In (EvCall (VGlobal b f) args kw k) (log v) ->
-  In f ["eval"; "exec"]%string ->
-  run_from p' (fk_init first_var) = Ok s -> analyze crepr std protos s = Some fs ->
-  doc_rank (verdict fs) = 5 \/ (exists i j es kwe, In (SAssignV i (ECall (EVar j) es kwe)) (body s)).
-Proof.
-  intros p' v fv s protos fs b f args kw k Hv Hin Hf Hs HA.
-  destruct (run_lockstep p' _ _ _ _ _ (R_init fv) Hs Hv) as (al & _ & [Rs Rm Rh Re Rc Rv Rp]).
-  destruct (events_calls_covered _ _ _ Re _ _ _ _ Hin) as (i & fe & es & kwe & Hst & Hf' & _).
-  inversion Hf'; subst.
-  - left. eapply body_floor_bad_call; eauto.
-    assert (forallb (fun x => mem_str x bad_calls) ["eval"; "exec"]%string = true) as T
-      by (vm_compute; reflexivity).
-    rewrite forallb_forall in T. specialize (T _ Hf). clear - T.
-    induction bad_calls as [|y r IH]; cbn in T; [discriminate|].
-    destruct (String.eqb_spec f y) as [->|_]; [left; reflexivity | right; auto].
-  - right. eauto.
-Qed.
 End Severity.
+
+(* a base pickle that itself aliases builtins.eval through BUILD (the C04 alias escape D18) and calls
+   the alias: the run-last injection into it is still rated OVERTLY_MALICIOUS *)
+Definition alias_base : list op :=
+  [ONoop; OGlobal "builtins" "eval"; OConst CNone; OBuild; OMark; OConst (CStr "1"); OTuple; OReduce; OStop].
+Example C08_severity_alias_base :
+  match inject (MInsert "builtins" "eval" [AConst (CStr "2")] false false) alias_base with
+  | Ok p' => match run p', base_run alias_base with
+             | Ok s, Some _ =>
+                 match analyze (fun _ => "'1'"%string) (fun _ => true) [] s with
+                 | Some fs => doc_rank (verdict fs) = 5 /\ single_final_stop alias_base = true
+                 | None => False end
+             | _, _ => False end
+  | Err _ => False
+  end.
+Proof. vm_compute. auto. Qed.
 
 Example C08_severity_nonvacuous :
   match inject (MInsert "builtins" "eval" [AConst (CStr "1+1")] false false) demo_base with
@@ -317,6 +316,7 @@ Print Assumptions C08_refuses.
 Print Assumptions C08_args_eval.
 Print Assumptions C08_args_eval_consts.
 Print Assumptions C08_single_final_stop.
+Print Assumptions C08_frame_symbolic.
 Print Assumptions C08_injected_call_decompiled.
 Print Assumptions C08_never_likely_safe_builtin.
 Print Assumptions C08_insert_run_first.
@@ -326,4 +326,3 @@ Print Assumptions C08_append_nopop_stack_refuted.
 Print Assumptions C08_call_on_object.
 Print Assumptions C08_magic_int.
 Print Assumptions C08_never_likely_safe_nonstd.
-Print Assumptions C08_never_likely_safe_builtin_run_last_partial.
